@@ -117,20 +117,20 @@ func b2i(b bool) int {
 }
 
 type qop struct {
-	idx     int
-	kind    string // push pop cancel close
-	urgent  bool
-	block   bool
-	val     int64
-	popID   int64
-	call    int64
-	ret     int64
-	done    atomic.Bool
-	out     string // ok full closed cancelled panic-closed val
-	outVal  int64
-	cancel  context.CancelFunc
-	ctx     context.Context
-	started bool
+	idx      int
+	kind     string // push pop cancel close
+	urgent   bool
+	block    bool
+	val      int64
+	popID    int64
+	call     int64
+	ret      int64
+	done     atomic.Bool
+	out      string // ok full closed cancelled panic-closed val
+	outVal   int64
+	cancel   context.CancelFunc
+	ctx      context.Context
+	started  bool
 	deadline bool // the context ends by a deadline
 }
 
@@ -706,7 +706,6 @@ func postC15(res *RunResult, post map[string]any) {
 			Signature: "C15/linearizability", Detail: fmt.Sprintf("history not linearizable against the bounded two-class FIFO model (cap=%d): %+v", capn, hist)})
 	}
 }
-
 
 func deadlineOf(ctx context.Context) time.Time {
 	d, _ := ctx.Deadline()
